@@ -120,12 +120,19 @@ struct ConnSt {
     bytes_read: usize,
     read_pendings: u64,
     eof_seen: bool,
+    /// request whose head has arrived and whose Content-Length body has not: (target, length)
+    awaiting_body: Option<(String, usize)>,
+    /// complete request bodies received, in order
+    req_bodies: Vec<(String, Vec<u8>)>,
 }
 
 #[derive(Default)]
 struct Net {
     conns: Vec<ConnSt>,
     plan: HashMap<String, Reply>,
+    /// what the peer sends as soon as the HEAD of a request with a body has arrived (100 Continue,
+    /// or a final response that does not wait for the body)
+    plan_head: HashMap<String, Reply>,
     gated: bool,
     held: Vec<(usize, String)>,
     arrivals: Vec<(usize, String)>,
@@ -171,6 +178,11 @@ impl Net {
             self.held.push((conn, target));
         } else {
             self.answer(conn, &target);
+        }
+    }
+    fn on_head(&mut self, conn: usize, target: &str) {
+        if let Some(r) = self.plan_head.get(target).cloned() {
+            self.enqueue(conn, &r);
         }
     }
     fn answer(&mut self, conn: usize, target: &str) {
@@ -256,16 +268,37 @@ impl AsyncWrite for SIo {
         let idx = self.idx;
         let mut n = self.net.borrow_mut();
         n.conns[idx].out.extend_from_slice(data);
-        // requests carry no body: every CRLFCRLF ends one request
+        // a request is its head plus `content-length` body bytes (never chunked in this workload)
         loop {
             let c = &mut n.conns[idx];
+            if let Some((target, need)) = c.awaiting_body.clone() {
+                if c.out.len() - c.scanned < need {
+                    break;
+                }
+                let body = c.out[c.scanned..c.scanned + need].to_vec();
+                c.scanned += need;
+                c.awaiting_body = None;
+                c.req_bodies.push((target.clone(), body));
+                n.on_request(idx, target);
+                continue;
+            }
             let from = c.scanned;
             let Some(p) = c.out[from..].windows(4).position(|w| w == b"\r\n\r\n") else { break };
-            let head = &c.out[from..from + p];
-            let line = head.split(|&b| b == b'\r').next().unwrap_or(&[]);
-            let target = String::from_utf8_lossy(line).split(' ').nth(1).unwrap_or("").to_string();
+            let head = String::from_utf8_lossy(&c.out[from..from + p]).to_string();
+            let mut lines = head.split("\r\n");
+            let target = lines.next().unwrap_or("").split(' ').nth(1).unwrap_or("").to_string();
+            let need = lines
+                .filter_map(|l| l.split_once(':'))
+                .find(|(k, _)| k.eq_ignore_ascii_case("content-length"))
+                .and_then(|(_, v)| v.trim().parse::<usize>().ok())
+                .unwrap_or(0);
             c.scanned = from + p + 4;
-            n.on_request(idx, target);
+            if need > 0 {
+                c.awaiting_body = Some((target.clone(), need));
+                n.on_head(idx, &target);
+            } else {
+                n.on_request(idx, target);
+            }
         }
         Poll::Ready(Ok(data.len()))
     }
@@ -393,11 +426,18 @@ fn errclass(dbg: String) -> String {
     s
 }
 
-async fn exchange(client: awc::Client, head_req: bool, target: String, act: ClientAct) -> Outcome {
+/// `req_body: Some(b)` sends `POST` with `Expect: 100-continue` and `b` as a sized body.
+async fn exchange(client: awc::Client, head_req: bool, target: String, act: ClientAct, req_body: Option<Vec<u8>>) -> Outcome {
     let url = format!("http://c17.test{target}");
     let fut = async move {
-        let req = if head_req { client.head(url) } else { client.get(url) };
-        let resp = match req.no_decompress().send().await {
+        let sending = match req_body {
+            Some(b) => client.post(url).insert_header(("expect", "100-continue")).no_decompress().send_body(Bytes::from(b)),
+            None => {
+                let req = if head_req { client.head(url) } else { client.get(url) };
+                req.no_decompress().send()
+            }
+        };
+        let resp = match sending.await {
             Err(e) => return Outcome::SendErr(errclass(format!("{e:?}"))),
             Ok(r) => r,
         };
@@ -490,9 +530,18 @@ struct Tpl {
     #[serde(with = "escb")]
     body: Vec<u8>,
     framing: Framing,
+    /// the request is `POST` with `Expect: 100-continue` and a sized body.  The interim parts of
+    /// the wire (a `100 Continue`) are sent when the request HEAD has arrived, the rest once the
+    /// request body is complete; without interim parts the whole response is sent at the head
+    /// (the server answers with a final response instead of `100 Continue`).
+    #[serde(default)]
+    expect: bool,
 }
 
 impl Tpl {
+    fn interim_end(&self) -> usize {
+        self.parts.iter().take_while(|p| p.label.starts_with("interim")).map(|p| p.bytes.len()).sum()
+    }
     fn wire(&self) -> Vec<u8> {
         self.parts.iter().flat_map(|p| p.bytes.iter().copied()).collect()
     }
@@ -513,6 +562,7 @@ impl Tpl {
 struct TB {
     name: String,
     head_req: bool,
+    expect: bool,
     parts: Vec<Part>,
     status: u16,
     body: Vec<u8>,
@@ -523,7 +573,7 @@ struct TB {
 
 impl TB {
     fn new(name: &str) -> TB {
-        TB { name: name.into(), head_req: false, parts: vec![], status: 0, body: vec![], framing: Framing::NoBody, final_head_end: 0, body_done_at: None }
+        TB { name: name.into(), head_req: false, expect: false, parts: vec![], status: 0, body: vec![], framing: Framing::NoBody, final_head_end: 0, body_done_at: None }
     }
     fn len(&self) -> usize {
         self.parts.iter().map(|p| p.bytes.len()).sum()
@@ -593,6 +643,7 @@ impl TB {
         Tpl {
             name: self.name.clone(),
             head_req: self.head_req,
+            expect: self.expect,
             parts: self.parts.clone(),
             final_head_end: self.final_head_end,
             body_done_at: bda,
@@ -645,7 +696,41 @@ fn short_corpus() -> Vec<Tpl> {
             .last_chunk("0")
             .build(),
     );
+    // a 204 must not carry Content-Length, but a peer may send it; it has no body either way
+    v.push(TB::new("204-cl").head("HTTP/1.1 204 No Content", &["content-length: 5"]).build());
+
+    // ---- request with `Expect: 100-continue` and a body: awc reads the 100 and the final head
+    // with ONE codec, so per-head codec state must not leak from the interim to the final response
+    let ex = |name: &str, interim: bool| {
+        let mut t = TB::new(name);
+        t.expect = true;
+        if interim {
+            t.interim("HTTP/1.1 100 Continue", &[]);
+        }
+        t
+    };
+    v.push(ex("expect-100-cl", true).head("HTTP/1.1 200 OK", &["content-length: 11"]).cl_body(b"hello world").build());
+    v.push(ex("expect-100-chunked", true).head("HTTP/1.1 201 Created", &["transfer-encoding: chunked"]).chunk("5;e=1", b"hello").chunk("06", b" world").last_chunk("0").build());
+    v.push(ex("expect-100-close-1.0", true).head("HTTP/1.0 200 OK", &["server: old"]).close_body(Framing::Close10, b"hello old world").build());
+    v.push(ex("expect-100-304-cl", true).head("HTTP/1.1 304 Not Modified", &["content-length: 11"]).build());
+    v.push(ex("expect-100-204-cl", true).head("HTTP/1.1 204 No Content", &["content-length: 5"]).build());
+    v.push(ex("expect-100-cl-conn-close", true).head("HTTP/1.1 200 OK", &["connection: close", "content-length: 5"]).cl_body(b"hello").build());
+    // the server answers with a final response instead of 100 Continue
+    v.push(ex("expect-final-417-cl", false).head("HTTP/1.1 417 Expectation Failed", &["content-length: 6"]).cl_body(b"no way").build());
+    v.push(ex("expect-final-200-chunked", false).head("HTTP/1.1 200 OK", &["transfer-encoding: chunked"]).chunk("3", b"abc").chunk("2", b"de").last_chunk("0").build());
+    v.push(ex("expect-final-417-close-1.0", false).head("HTTP/1.0 417 Expectation Failed", &[]).close_body(Framing::Close10, b"bye").build());
     v
+}
+
+/// request-body length used with an `expect` template for enumeration index `idx`
+fn rbl(t: &Tpl, idx: u64) -> usize {
+    if !t.expect {
+        0
+    } else if idx % 5 == 0 {
+        70_000
+    } else {
+        23
+    }
 }
 
 /// random template with a larger body
@@ -677,10 +762,22 @@ fn random_tpl(rng: &mut Rng) -> Tpl {
         extra.push(format!("x-h{}: {}", rng.below(100), "v".repeat(rng.range(1, 30))));
     }
     let interim = rng.chance(1, 6);
+    // a quarter of the cases: request with Expect: 100-continue; the peer sends 100 Continue
+    // first (3 of 4) or answers with the final response right away
+    let expect = rng.chance(1, 4);
+    let expect_100 = expect && rng.chance(3, 4);
+    let start = |name: &str| {
+        let mut t = TB::new(&if expect { format!("rand-expect-{name}") } else { format!("rand-{name}") });
+        t.expect = expect;
+        if expect_100 {
+            t.interim("HTTP/1.1 100 Continue", &[]);
+        }
+        t
+    };
     match kind {
         0 | 1 => {
-            let mut t = TB::new("rand-cl");
-            if interim {
+            let mut t = start("cl");
+            if interim && !expect {
                 t.interim("HTTP/1.1 103 Early Hints", &["link: </s.css>; rel=preload"]);
             }
             let cl = format!("content-length: {}", body.len());
@@ -689,8 +786,8 @@ fn random_tpl(rng: &mut Rng) -> Tpl {
             t.head("HTTP/1.1 200 OK", &hs).cl_body(&body).build()
         }
         2 | 3 | 4 => {
-            let mut t = TB::new("rand-chunked");
-            if interim {
+            let mut t = start("chunked");
+            if interim && !expect {
                 t.interim("HTTP/1.1 100 Continue", &[]);
             }
             let mut hs: Vec<&str> = extra.iter().map(|s| s.as_str()).collect();
@@ -720,7 +817,7 @@ fn random_tpl(rng: &mut Rng) -> Tpl {
         }
         _ => {
             let hs: Vec<&str> = extra.iter().map(|s| s.as_str()).collect();
-            TB::new("rand-close-1.0").head("HTTP/1.0 200 OK", &hs).close_body(Framing::Close10, &body).build()
+            start("close-1.0").head("HTTP/1.0 200 OK", &hs).close_body(Framing::Close10, &body).build()
         }
     }
 }
@@ -738,10 +835,17 @@ struct XCase {
     cuts: Vec<usize>,
     pace: bool,
     seg_class: String,
+    /// length of the request body (templates with `expect` only)
+    #[serde(default)]
+    req_body_len: usize,
 }
 
 struct XObs {
     out: Outcome,
+    /// complete request bodies the peer received
+    req_bodies: Vec<Vec<u8>>,
+    /// bytes of a request body that never became complete
+    req_body_partial: Vec<u8>,
     conns: usize,
     max_open: usize,
     bytes_read: usize,
@@ -751,20 +855,37 @@ struct XObs {
 fn run_exchange(t: &Tpl, c: &XCase) -> Result<XObs, String> {
     let wire = t.wire();
     let head_req = t.head_req;
+    let expect = t.expect;
+    let interim_end = t.interim_end();
+    let req_body = if expect { Some(req_body_bytes(c.req_body_len)) } else { None };
     let c = c.clone();
     guard(move || {
         run_virtual(async move {
             let net: NetRc = Rc::new(RefCell::new(Net::default()));
-            let delivered = &wire[..c.cut_at.min(wire.len())];
-            let segs = if delivered.is_empty() { vec![] } else { split_at_cuts(delivered, &c.cuts) };
-            net.borrow_mut().plan.insert("/x".into(), Reply { segs, pace: c.pace, close: c.close, close_pause: c.pace, leftover: None });
+            let cut_at = c.cut_at.min(wire.len());
+            let mk = |from: usize, to: usize, close: CloseKind| {
+                let cuts: Vec<usize> = c.cuts.iter().filter(|&&x| x > from && x < to).map(|x| x - from).collect();
+                let segs = if to <= from { vec![] } else { split_at_cuts(&wire[from..to], &cuts) };
+                Reply { segs, pace: c.pace, close, close_pause: c.pace, leftover: None }
+            };
+            if !expect {
+                net.borrow_mut().plan.insert("/x".into(), mk(0, cut_at, c.close));
+            } else if interim_end == 0 || cut_at < interim_end {
+                // final response instead of 100 Continue, or the connection ends inside the 100
+                net.borrow_mut().plan_head.insert("/x".into(), mk(0, cut_at, c.close));
+            } else {
+                net.borrow_mut().plan_head.insert("/x".into(), mk(0, interim_end, CloseKind::Stay));
+                net.borrow_mut().plan.insert("/x".into(), mk(interim_end, cut_at, c.close));
+            }
             let client = mk_client(&net, 4);
-            let out = exchange(client.clone(), head_req, "/x".into(), ClientAct::ReadAll).await;
+            let out = exchange(client.clone(), head_req, "/x".into(), ClientAct::ReadAll, req_body.clone()).await;
             drop(client);
             breathe().await;
             let n = net.borrow();
             XObs {
                 out,
+                req_bodies: n.conns.iter().flat_map(|c| c.req_bodies.iter().map(|b| b.1.clone())).collect(),
+                req_body_partial: n.conns.iter().filter(|c| c.awaiting_body.is_some()).flat_map(|c| c.out[c.scanned..].to_vec()).collect(),
                 conns: n.conns.len(),
                 max_open: n.max_open,
                 bytes_read: n.conns.iter().map(|c| c.bytes_read).sum(),
@@ -772,6 +893,11 @@ fn run_exchange(t: &Tpl, c: &XCase) -> Result<XObs, String> {
             }
         })
     })
+}
+
+/// deterministic request body: position-dependent so that loss, duplication and reordering show
+fn req_body_bytes(len: usize) -> Vec<u8> {
+    (0..len.max(1)).map(|i| b"0123456789abcdefghijklmnopqrstuvwxyz\r\n"[(i + i / 38) % 38]).collect()
 }
 
 fn is_prefix(a: &[u8], of: &[u8]) -> bool {
@@ -785,6 +911,25 @@ fn judge_exchange(t: &Tpl, c: &XCase, o: &XObs, rep: &mut Reporter) -> Option<(S
     rep.count(&format!("outcome:{}", o.out.class()), 1);
     if o.conns != 1 {
         return Some(("harness".into(), format!("{} connections opened for one request", o.conns)));
+    }
+    if t.expect {
+        let sent = req_body_bytes(c.req_body_len);
+        if o.req_bodies.len() > 1 || o.req_bodies.iter().any(|b| *b != sent) || !is_prefix(&o.req_body_partial, &sent) {
+            return Some((
+                "request-body-corrupt".into(),
+                format!("the peer received {} complete request bodies ({:?} bytes) and a partial one of {} bytes; the client sent one body of {} bytes", o.req_bodies.len(), o.req_bodies.iter().map(|b| b.len()).collect::<Vec<_>>(), o.req_body_partial.len(), sent.len()),
+            ));
+        }
+        let got_100 = t.interim_end() > 0 && c.cut_at >= t.interim_end();
+        match (got_100, o.req_bodies.len()) {
+            (true, 1) => rep.count("expect:body-sent-after-100-continue", 1),
+            (true, _) => rep.count("expect:body-not-sent-although-100-continue", 1),
+            (false, 0) => rep.count("expect:body-withheld-without-100-continue", 1),
+            (false, _) => rep.count("expect:body-sent-without-100-continue", 1),
+        }
+        if got_100 && o.req_bodies.is_empty() && !matches!(o.out, Outcome::SendErr(_)) {
+            return Some(("request-body-corrupt".into(), "a response was delivered although the peer sends it only after the complete request body, which it never received".into()));
+        }
     }
     let complete = t.msg_end.map(|e| c.cut_at >= e).unwrap_or(false);
     match &o.out {
@@ -908,13 +1053,13 @@ fn eval_exchange(t: &Tpl, c: &XCase, rep: &mut Reporter) {
             if debug() && rep.get("anomaly:error-on-complete-message") > before {
                 eprintln!("ANOMALY error-on-complete {} cut_at {} {} {:?} seg {} -> {}", t.name, c.cut_at, c.close.name(), c.cuts.len(), c.seg_class, short_outcome(&o.out));
             }
-            rep.sig(&format!("x|{}|{}|{}|{}|{}|{}", t.name, region.trim_start_matches('^'), c.close.name(), c.seg_class, c.pace, o.out.class()));
+            rep.sig(&format!("x|{}|{}|{}|{}|{}|{}|{}", t.name, region.trim_start_matches('^'), c.close.name(), c.seg_class, c.pace, o.out.class(), if c.req_body_len > 16_384 { "big-req" } else { "" }));
             rep.count(&format!("cut-region:{}", region.trim_start_matches('^')), 1);
             if rep.get("evaluations") % 5000 == 1 {
                 rep.sample("exchange", json!({"template": t.name, "connection_ends_at": c.cut_at, "of": t.wire().len(), "in": region, "how": c.close.name(), "segmentation": c.seg_class, "pending_between_reads": c.pace, "outcome": short_outcome(&o.out)}));
             }
             if let Some((class, detail)) = verdict {
-                let detail = format!("{detail}; template {} ({}), request {}, segmentation {} pace={}; outcome {:?}", t.name, t.framing.name(), if t.head_req { "HEAD" } else { "GET" }, c.seg_class, c.pace, short_outcome(&o.out));
+                let detail = format!("{detail}; template {} ({}), request {}, segmentation {} pace={}; outcome {:?}", t.name, t.framing.name(), if t.expect { "POST with Expect: 100-continue" } else if t.head_req { "HEAD" } else { "GET" }, c.seg_class, c.pace, short_outcome(&o.out));
                 // one signature per interim status: what was cut where does not matter for this clause
                 let sig = match (&o.out, class.as_str()) {
                     (Outcome::Resp { status, .. }, "interim-as-final") => format!("status-{status}"),
@@ -980,14 +1125,27 @@ enum RKind {
     TruncChunked,
     /// `103 Early Hints` in its own segment, then a complete Content-Length response
     Interim103Cl,
+    NoBody304,
+    /// POST with `Expect: 100-continue` and a body; `100 Continue` at the request head, then a
+    /// complete Content-Length response once the body has arrived
+    ExpectCl,
+    /// the same, the final response cut short by a close
+    ExpectTruncCl,
+    ExpectTruncChunked,
 }
 
 impl RKind {
     fn persistent(self) -> bool {
-        matches!(self, RKind::Cl | RKind::Chunked | RKind::NoBody204 | RKind::Head | RKind::H10ClKeepAlive | RKind::Interim103Cl)
+        matches!(self, RKind::Cl | RKind::Chunked | RKind::NoBody204 | RKind::NoBody304 | RKind::Head | RKind::H10ClKeepAlive | RKind::Interim103Cl | RKind::ExpectCl)
     }
     fn complete(self) -> bool {
-        !matches!(self, RKind::TruncCl | RKind::TruncChunked)
+        !matches!(self, RKind::TruncCl | RKind::TruncChunked | RKind::ExpectTruncCl | RKind::ExpectTruncChunked)
+    }
+    fn expect(self) -> bool {
+        matches!(self, RKind::ExpectCl | RKind::ExpectTruncCl | RKind::ExpectTruncChunked)
+    }
+    fn no_body(self) -> bool {
+        matches!(self, RKind::NoBody204 | RKind::NoBody304 | RKind::Head)
     }
     fn nonpersistent_reason(self) -> &'static str {
         match self {
@@ -1031,6 +1189,9 @@ struct Built {
     /// full body the application must see when it reads to the end
     body: Vec<u8>,
     framing: &'static str,
+    /// sent when the request head has arrived (requests with `Expect: 100-continue`)
+    head_reply: Option<Reply>,
+    req_body: Option<Vec<u8>>,
 }
 
 fn body_for(i: usize, len: usize) -> Vec<u8> {
@@ -1069,13 +1230,14 @@ fn build_reply(i: usize, p: &ReqPlan) -> Built {
     let body = body_for(i, p.body_len.max(8));
     let xid = format!("x-id: {i}\r\n");
     let (head, payload, framing, app_body): (String, Vec<u8>, &'static str, Vec<u8>) = match p.kind {
-        RKind::Cl | RKind::TruncCl | RKind::Interim103Cl => (format!("HTTP/1.1 200 OK\r\n{xid}content-length: {}\r\n\r\n", body.len()), body.clone(), "content-length", body.clone()),
+        RKind::Cl | RKind::TruncCl | RKind::Interim103Cl | RKind::ExpectCl | RKind::ExpectTruncCl => (format!("HTTP/1.1 200 OK\r\n{xid}content-length: {}\r\n\r\n", body.len()), body.clone(), "content-length", body.clone()),
         RKind::ClConnClose => (format!("HTTP/1.1 200 OK\r\n{xid}connection: close\r\ncontent-length: {}\r\n\r\n", body.len()), body.clone(), "content-length", body.clone()),
         RKind::H10Cl => (format!("HTTP/1.0 200 OK\r\n{xid}content-length: {}\r\n\r\n", body.len()), body.clone(), "content-length", body.clone()),
         RKind::H10ClKeepAlive => (format!("HTTP/1.0 200 OK\r\n{xid}connection: keep-alive\r\ncontent-length: {}\r\n\r\n", body.len()), body.clone(), "content-length", body.clone()),
-        RKind::Chunked | RKind::TruncChunked => (format!("HTTP/1.1 200 OK\r\n{xid}transfer-encoding: chunked\r\n\r\n"), chunked_wire(&body, 3), "chunked", body.clone()),
+        RKind::Chunked | RKind::TruncChunked | RKind::ExpectTruncChunked => (format!("HTTP/1.1 200 OK\r\n{xid}transfer-encoding: chunked\r\n\r\n"), chunked_wire(&body, 3), "chunked", body.clone()),
         RKind::ChunkedConnClose => (format!("HTTP/1.1 200 OK\r\n{xid}connection: close\r\ntransfer-encoding: chunked\r\n\r\n"), chunked_wire(&body, 3), "chunked", body.clone()),
         RKind::NoBody204 => (format!("HTTP/1.1 204 No Content\r\n{xid}\r\n"), vec![], "no-body", vec![]),
+        RKind::NoBody304 => (format!("HTTP/1.1 304 Not Modified\r\n{xid}etag: \"v{i}\"\r\n\r\n"), vec![], "no-body", vec![]),
         RKind::Head => (format!("HTTP/1.1 200 OK\r\n{xid}content-length: {}\r\n\r\n", body.len()), vec![], "no-body", vec![]),
         RKind::Close10 => (format!("HTTP/1.0 200 OK\r\n{xid}\r\n"), body.clone(), "close-delimited-1.0", body.clone()),
     };
@@ -1085,7 +1247,7 @@ fn build_reply(i: usize, p: &ReqPlan) -> Built {
     let head_len = wire.len();
     wire.extend_from_slice(&payload);
     let mut close = p.after;
-    if matches!(p.kind, RKind::TruncCl | RKind::TruncChunked) {
+    if !p.kind.complete() {
         // lose the last third of the payload (at least the terminator)
         let keep = head_len + payload.len() * 2 / 3;
         wire.truncate(keep.min(wire.len() - 1));
@@ -1113,7 +1275,12 @@ fn build_reply(i: usize, p: &ReqPlan) -> Built {
         Leftover::Garbage => Some(b"zz".to_vec()),
     };
     let pace = p.pace && p.kind != RKind::Interim103Cl;
-    Built { reply: Reply { segs: split_at_cuts(&wire, &cuts), pace, close, close_pause: false, leftover }, body: app_body, framing }
+    let (head_reply, req_body) = if p.kind.expect() {
+        (Some(Reply { segs: vec![b"HTTP/1.1 100 Continue\r\n\r\n".to_vec()], pace: false, close: CloseKind::Stay, close_pause: false, leftover: None }), Some(req_body_bytes(p.body_len.max(1))))
+    } else {
+        (None, None)
+    };
+    Built { reply: Reply { segs: split_at_cuts(&wire, &cuts), pace, close, close_pause: false, leftover }, body: app_body, framing, head_reply, req_body }
 }
 
 struct PoolObs {
@@ -1127,6 +1294,8 @@ struct PoolObs {
     max_held: usize,
     unreleased: usize,
     unknown_targets: u64,
+    /// (request index, bytes) of every complete request body the peer received
+    req_bodies: Vec<(usize, Vec<u8>)>,
 }
 
 fn run_pool(sc: &PoolScenario) -> Result<PoolObs, String> {
@@ -1136,7 +1305,11 @@ fn run_pool(sc: &PoolScenario) -> Result<PoolObs, String> {
             let net: NetRc = Rc::new(RefCell::new(Net::default()));
             let n = sc.plans.len();
             for (i, p) in sc.plans.iter().enumerate() {
-                net.borrow_mut().plan.insert(format!("/r{i}"), build_reply(i, p).reply);
+                let b = build_reply(i, p);
+                net.borrow_mut().plan.insert(format!("/r{i}"), b.reply);
+                if let Some(h) = b.head_reply {
+                    net.borrow_mut().plan_head.insert(format!("/r{i}"), h);
+                }
             }
             let client = mk_client(&net, sc.limit);
             let mut outs: Vec<Option<Outcome>> = vec![None; n];
@@ -1144,14 +1317,14 @@ fn run_pool(sc: &PoolScenario) -> Result<PoolObs, String> {
             let mut unreleased = 0;
             if !sc.concurrent {
                 for (i, p) in sc.plans.iter().enumerate() {
-                    let o = exchange(client.clone(), p.kind == RKind::Head, format!("/r{i}"), p.act).await;
+                    let o = exchange(client.clone(), p.kind == RKind::Head, format!("/r{i}"), p.act, build_reply(i, p).req_body).await;
                     outs[i] = Some(o);
                     breathe().await;
                 }
             } else {
                 net.borrow_mut().gated = true;
                 let mut rng = Rng::derive(sc.order_seed, 17, 0);
-                let handles: Vec<_> = sc.plans.iter().enumerate().map(|(i, p)| actix_rt::spawn(exchange(client.clone(), p.kind == RKind::Head, format!("/r{i}"), p.act))).collect();
+                let handles: Vec<_> = sc.plans.iter().enumerate().map(|(i, p)| actix_rt::spawn(exchange(client.clone(), p.kind == RKind::Head, format!("/r{i}"), p.act, build_reply(i, p).req_body))).collect();
                 let mut idle_rounds = 0;
                 let mut released = 0;
                 let mut rounds = 0;
@@ -1209,6 +1382,7 @@ fn run_pool(sc: &PoolScenario) -> Result<PoolObs, String> {
                 max_held,
                 unreleased,
                 unknown_targets: nn.unknown_targets,
+                req_bodies: nn.conns.iter().flat_map(|c| c.req_bodies.iter().filter_map(|(t, b)| idx_of(t.as_str()).map(|i| (i, b.clone())))).collect(),
             }
         })
     })
@@ -1290,6 +1464,14 @@ fn judge_pool(sc: &PoolScenario, o: &PoolObs, rep: &mut Reporter) -> Vec<(String
             }
         }
     }
+    for (i, b) in &o.req_bodies {
+        let want = built.get(*i).and_then(|x| x.req_body.clone()).unwrap_or_default();
+        if *b != want {
+            v.push(("request-body-corrupt".into(), format!("pool:{:?}", sc.plans[*i].kind), format!("request {i}: the peer received a body of {} bytes, the client sent {} bytes", b.len(), want.len())));
+        } else {
+            rep.count("pool:request-bodies-verified", 1);
+        }
+    }
     // (2) reuse discipline
     for (ci, l) in o.per_conn.iter().enumerate() {
         for w in l.windows(2) {
@@ -1302,7 +1484,7 @@ fn judge_pool(sc: &PoolScenario, o: &PoolObs, rep: &mut Reporter) -> Vec<(String
                 Some(pj.kind.nonpersistent_reason().to_string())
             } else if !pj.kind.complete() {
                 Some("incomplete-response".to_string())
-            } else if !o.outs[j].read_to_end() && !matches!(pj.kind, RKind::NoBody204 | RKind::Head) {
+            } else if !o.outs[j].read_to_end() && !pj.kind.no_body() {
                 Some(format!("body-not-read-to-end({})", o.outs[j].class()))
             } else if matches!(o.outs[j], Outcome::SendErr(_) | Outcome::Stall) {
                 Some("failed-exchange".to_string())
@@ -1318,6 +1500,9 @@ fn judge_pool(sc: &PoolScenario, o: &PoolObs, rep: &mut Reporter) -> Vec<(String
                     format!("request {i} was sent on connection {ci}, which had carried request {j} ({}) — not reusable: {r}", plan_sig(pj)),
                 )),
                 None => {
+                    if !sc.plans[i].kind.complete() {
+                        rep.count(if pj.kind.no_body() { "observed:truncated-response-on-connection-reused-after-no-body-exchange" } else { "observed:truncated-response-on-reused-connection" }, 1);
+                    }
                     if pj.after == CloseKind::Eof {
                         rep.count("observed:reuse-after-peer-eof", 1);
                     } else {
@@ -1398,7 +1583,7 @@ fn eval_pool(sc: &PoolScenario, rep: &mut Reporter) {
 }
 
 fn random_plan(rng: &mut Rng, concurrent: bool) -> ReqPlan {
-    const KINDS: [RKind; 12] = [
+    const KINDS: [RKind; 16] = [
         RKind::Cl,
         RKind::Chunked,
         RKind::NoBody204,
@@ -1411,6 +1596,10 @@ fn random_plan(rng: &mut Rng, concurrent: bool) -> ReqPlan {
         RKind::TruncCl,
         RKind::TruncChunked,
         RKind::Interim103Cl,
+        RKind::NoBody304,
+        RKind::ExpectCl,
+        RKind::ExpectTruncCl,
+        RKind::ExpectTruncChunked,
     ];
     let kind = if rng.chance(1, 2) { *rng.pick(&[RKind::Cl, RKind::Chunked]) } else { *rng.pick(&KINDS) };
     let body_len = match rng.below(3) {
@@ -1490,7 +1679,7 @@ pub fn run(ctx: &Ctx, rep: &mut Reporter) {
                         complete = false;
                         continue;
                     }
-                    eval_exchange(t, &XCase { cut_at, close, cuts, pace, seg_class: seg_class.into() }, rep);
+                    eval_exchange(t, &XCase { cut_at, close, cuts, pace, seg_class: seg_class.into(), req_body_len: rbl(t, idx) }, rep);
                 }
             }
         }
@@ -1513,7 +1702,7 @@ pub fn run(ctx: &Ctx, rep: &mut Reporter) {
                 if ctx.out_of_time() {
                     complete = false;
                 } else {
-                    eval_exchange(t, &XCase { cut_at: len, close, cuts: vec![a], pace: a % 2 == 0, seg_class: format!("cut@{}", t.region(a).trim_start_matches('^')) }, rep);
+                    eval_exchange(t, &XCase { cut_at: len, close, cuts: vec![a], pace: a % 2 == 0, seg_class: format!("cut@{}", t.region(a).trim_start_matches('^')), req_body_len: rbl(t, idx) }, rep);
                 }
             }
             if ctx.thorough() {
@@ -1528,7 +1717,7 @@ pub fn run(ctx: &Ctx, rep: &mut Reporter) {
                     }
                     eval_exchange(
                         t,
-                        &XCase { cut_at: len, close, cuts: vec![a, b], pace: (a + b) % 2 == 0, seg_class: format!("cut@{}+{}", t.region(a).trim_start_matches('^'), t.region(b).trim_start_matches('^')) },
+                        &XCase { cut_at: len, close, cuts: vec![a, b], pace: (a + b) % 2 == 0, seg_class: format!("cut@{}+{}", t.region(a).trim_start_matches('^'), t.region(b).trim_start_matches('^')), req_body_len: rbl(t, idx) },
                         rep,
                     );
                 }
@@ -1552,6 +1741,10 @@ pub fn run(ctx: &Ctx, rep: &mut Reporter) {
         RKind::TruncCl,
         RKind::TruncChunked,
         RKind::Interim103Cl,
+        RKind::NoBody304,
+        RKind::ExpectCl,
+        RKind::ExpectTruncCl,
+        RKind::ExpectTruncChunked,
     ];
     let mut complete = true;
     for kind in kinds {
@@ -1580,6 +1773,36 @@ pub fn run(ctx: &Ctx, rep: &mut Reporter) {
         }
     }
     rep.exhaustive("every (response kind × peer-after × leftover × client action × segmentation) followed by two plain requests", complete && !miri);
+    // D1b: a reusable exchange (no-body status, HEAD, expect, plain) and then, on the SAME pooled
+    // connection, a framed response that is cut short: it must be judged as strictly as on a fresh one
+    let mut complete = true;
+    for first_kind in [RKind::NoBody204, RKind::NoBody304, RKind::Head, RKind::ExpectCl, RKind::Cl, RKind::Chunked, RKind::H10ClKeepAlive] {
+        if !phases.contains('D') {
+            continue;
+        }
+        for cut_kind in [RKind::TruncCl, RKind::TruncChunked, RKind::ExpectTruncCl, RKind::ExpectTruncChunked] {
+            for body_len in [9usize, 600, 20_000] {
+                for (nseg, pace) in [(1, false), (4, true), (7, false)] {
+                    for repeat_first in [false, true] {
+                        idx += 1;
+                        if !ctx.mine(idx) || (miri && idx % 53 != 0) {
+                            continue;
+                        }
+                        if ctx.out_of_time() {
+                            complete = false;
+                            continue;
+                        }
+                        let first = ReqPlan { kind: first_kind, body_len: 300, nseg: 1, pace: false, after: CloseKind::Stay, leftover: Leftover::None, act: ClientAct::ReadAll };
+                        let cut = ReqPlan { kind: cut_kind, body_len, nseg, pace, after: CloseKind::Eof, leftover: Leftover::None, act: ClientAct::ReadAll };
+                        let plain = ReqPlan { kind: RKind::Cl, body_len: 20, nseg: 1, pace: false, after: CloseKind::Stay, leftover: Leftover::None, act: ClientAct::ReadAll };
+                        let plans = if repeat_first { vec![first.clone(), first, cut, plain] } else { vec![first, cut, plain] };
+                        eval_pool(&PoolScenario { limit: 1, concurrent: false, plans, order_seed: 0 }, rep);
+                    }
+                }
+            }
+        }
+    }
+    rep.exhaustive("every reusable first exchange × truncated framed response on the reused connection × body size × segmentation", complete && !miri);
     // ---- Phase C: random large responses, random close offset, random segmentation
     let nrand = if !phases.contains('C') { 0 } else if miri { 3 } else { ctx.share(40_000, 2_400_000) };
     let past = |pct: u64| ctx.start.elapsed().as_secs() * 100 >= ctx.budget_s * pct;
@@ -1624,7 +1847,9 @@ pub fn run(ctx: &Ctx, rep: &mut Reporter) {
                 ((1..cut_at / m + 1).map(|i| i * m).filter(|&c| c < cut_at).collect(), "mtu")
             }
         };
-        eval_exchange(&t, &XCase { cut_at, close, cuts, pace: rng.chance(1, 2), seg_class: seg_class.into() }, rep);
+        let pace = rng.chance(1, 2);
+        let req_body_len = if t.expect { [1usize, 23, 5000, 40_000, 100_000][rng.below(5)] } else { 0 };
+        eval_exchange(&t, &XCase { cut_at, close, cuts, pace, seg_class: seg_class.into(), req_body_len }, rep);
     }
 
     // D2: random sequences of 2–6 requests
